@@ -170,6 +170,14 @@ def _r3_tail(ctx, f, s):
         effs = path_effects(f, path)
         pushed = [e for e in effs if e[0] == 'c' and e[1].name == 'std::vec::Vec::push' and receiver_field(e[2][0]) == 'modules']
         inserted = [e for e in effs if e[0] == 'c' and e[1].name == 'std::vec::Vec::insert']
+        # `insert(modules.len(), m)` is an append: resolve the index along this path
+        for e in list(inserted):
+            site = e[1]
+            pidx = max(k for k, bb in enumerate(path) if bb == site.b)
+            ix = peel(f.expr_operand_on_path(site.args[1], path, pidx, 'T'))
+            if ix[0] == 'call' and ix[1].endswith('Vec::len') and receiver_field(ix[2][0]) == 'modules':
+                inserted.remove(e)
+                pushed.append(e)
         atoms = [a for _, a in path_atoms(f, path, decs)]
         no_parent = any(a[0] == 'is' and a[2] == 'None' and a[1][0] == 'call' and a[1][1].endswith(('ObjectPath::parent', 'ObjectPath::nonzero_parent')) for a in atoms)
         # ObjectPath::nonzero_parent() is None exactly when there is no parent or the parent is the root (checked on its body below)
@@ -245,6 +253,10 @@ def r3_insertion_rule(ctx):
                             and any(y[0] == 'call' and y[1].endswith('ObjectPath::len') for y in walk(cap)) and any(y[0] == 'call' and y[1].endswith(('ObjectPath::parent', 'ObjectPath::nonzero_parent')) for y in walk(cap)):
                         keep = op
         pp = peel(pos)
+        if pp[0] == 'phi':
+            # `insert(index, ..)` shared with the append case (index = modules.len()): look at the scanned alternative
+            alts = [peel(x) for x in pp[1] if not (peel(x)[0] == 'call' and peel(x)[1].endswith('Vec::len'))]
+            pp = alts[0] if len(alts) == 1 else pp
         pp = pp[1] if (pp[0] == 'field' and pp[1][0] == 'bin') else pp
         sum_ok = pp[0] == 'bin' and pp[1].startswith('Add') and any(any(z[0] == 'call' and z[1].endswith('::rposition') for z in walk(q)) and not any(z is counts[0] for z in walk(q)) for q in (pp[2], pp[3])) \
             and any(any(z is counts[0] or z == counts[0] for z in walk(q)) for q in (pp[2], pp[3]))
@@ -348,8 +360,7 @@ def r5_builder_rejections(ctx):
     ctx.floor('context creation sites in SimBuilder::raw', len(child) + len(alone), 2)
     for s in child + alone:
         atoms = [a for _, a in f.guard_atoms(s.b)]
-        nodup = any(a[0] == 'bool' and a[1][0] == 'call' and a[1][1].endswith('::is_none') and a[2] is True and
-                    any(x[0] == 'call' and x[1].endswith('::get') for x in walk(a[1])) for a in atoms)
+        nodup = any((option_state(a) or ('', None))[0] == 'none' and any(x[0] == 'call' and x[1].endswith('::get') for x in walk(option_state(a)[1])) for a in atoms)
         ctx.check(nodup, 'duplicate-rejected', 'a node is only created after the duplicate-path check passed', s.where(), [show_atom(a) for a in atoms][:4])
     for s in child:
         atoms = [a for _, a in f.guard_atoms(s.b)]
